@@ -124,6 +124,28 @@ def run(ctx):
         if len(samples) < 2:
             samples.append({"history": "connect(starttls=True) fault=%s tlsok=%s" % (fault, tlsok), "writes": [(t, b[:30].decode("latin-1")) for t, b in s.wire.writes]})
 
+    # 2a'. the handshake succeeds but the server does not follow it with a usable capability listing (NO, a listing that ends in
+    #      NO, BYE): nothing announced on the secured channel — nothing may be taken over from before the handshake, so no
+    #      AUTHENTICATE at all
+    for reply in (b'NO "capabilities unavailable"\r\n', b"NO\r\n", b'+NO "try later"\r\n', b'BYE "closing"\r\n', b"NO (TRYLATER) {5}\r\nlater\r\n"):
+        for mech in (None, "PLAIN", "LOGIN"):
+            srv = refserver.RefServer(r, starttls=True, sasl=b"PLAIN LOGIN")
+            srv.post_tls_reply = reply
+            s = msref.Session()
+            g = srv.greeting()
+            out = s.connect(b"", [], "user", "pw", starttls=True, mech=mech, server=srv)
+            record(["c op=new", msref.req_connect(g, [], "user", "pw", starttls=True, mech=mech, later=list(s.wire.segments))], ["ok", out])
+            evals += 1
+            nontriv += 1
+            probs = check_writes(s.wire.writes, True, srv.authed)
+            if any(v == "AUTHENTICATE" for _, v, _ in verbs_written(s.wire.writes)):
+                probs.append("credentials sent although the server announced no mechanism after the handshake (its listing was answered %r)" % reply[:30])
+            if "res=b1" in out or "auth=b1" in out:
+                probs.append("connect succeeded / client marked authenticated although no mechanism was announced after the handshake")
+            for p_ in probs:
+                viol.append({"history": "starttls, post-handshake listing answered %r, authmech=%r" % (reply, mech), "what": p_,
+                             "writes": [("tls" if t else "plain", b[:40].decode("latin-1")) for t, b in s.wire.writes]})
+
     # 2b. the same Client object used for a second connection: nothing of the first one (TLS state, capabilities, authentication)
     #     may carry over — the second connection has its own STARTTLS → handshake → AUTHENTICATE sequence
     for between in ("nothing", "logout", "op", "failed-op", "stale-bytes"):
